@@ -9,9 +9,9 @@ BASELINE = json.load(open("/root/.vp/BASELINE.json"))
 CHECKS = {
  "C17": dict(
    level="exploration", design="DESIGN.md §7 C17",
-   text="Seeded simulation of random operation sequences (append/read/set-offset/flush/sync/discard/copy/close-reopen/crash-reopen) over the real singleapp and multiapp code under an option swarm, compared step by step with an in-memory byte-log model; crash images (process kill, power loss with lost/torn un-synced writes, crash in the middle of the previous operation) and injected write/fsync/read errors. Sampling, not proof.",
-   note="Trusts the shadow-disk model (durable = fsynced; directory entries durable after a directory sync; 512-byte sector tearing) and the byte-log reference model in checks/c17_test.go. True parallelism inside the appendables is not explored (interleaving only at simhook yield points).",
-   technique="deterministic simulation: seeded op sequences + crash/fault injection vs reference byte-log model"),
+   text="Seeded simulation of random operation sequences (append/read/set-offset/flush/sync/discard/copy/close-reopen, with injected write/read/fsync errors) over the real singleapp and multiapp code under an option swarm, compared step by step with an in-memory byte-log model; injected write/fsync/read errors. Sampling, not proof.",
+   note="Crash images are not part of this check: the property promises the bytes back after flush and close; crash durability of the same files is decided in C03. Injected write/read/sync errors stay (an operation may fail, never return wrong data). Trusts the byte-log reference model in checks/c17_test.go. True parallelism inside the appendables is not explored (interleavings only at the hook points).",
+   technique="deterministic simulation: seeded op sequences + I/O error injection vs reference byte-log model"),
  "C02": dict(
    level="exploration", design="DESIGN.md §7 C02",
    text="Seeded simulation of the real embedded/store: 1-4 concurrent committer tasks (plain, write-only, async, preconditions, cancelled contexts, tx metadata) and a maintenance task (index flush/compaction, Sync, re-reads, proofs) interleaved by the cooperative scheduler at simhook yield points, under a store-option swarm and 1-3 clean close/reopen cycles. Oracle after every cycle and after every reopen: ids dense, every acknowledged tx reads back (ReadTx, ReadValue, ExportTx) exactly as acknowledged, PrevAlh chain, BlRoot equals a reference Merkle root, CommittedAlh is the last tx, dual proofs from acknowledged states verify. Sampling of schedules, not proof.",
@@ -29,18 +29,18 @@ CHECKS = {
    technique="deterministic simulation: recorded storage-op trace, crash-point and lost-write enumeration, recovery oracle"),
  "C08": dict(
    level="exploration", design="DESIGN.md §7 C08",
-   text="Seeded sequences of append (payloads incl. empty and repeated) / ResetSize / Sync / close-reopen / crash-reopen (crash images incl. crashes in the middle of the previous operation) on the real ahtree under an option swarm (sync threshold, 1-slot caches, tiny files); after the steps the whole public surface for sizes up to 40 is compared with a reference Merkle construction written from the definition: Root, RootAt(k), DataAt, InclusionProof and ConsistencyProof for index pairs (all pairs on full verification), verified with the real verifiers and with an independent reference verifier; altered proofs (dropped/extra/flipped/swapped/duplicated terms) and altered claims (shifted i, j, swapped roots, wrong leaf) must be rejected unless the reference verifier accepts the altered claim. htree (per-transaction tree): widths 1..33, all leaves, same reference, altered leaf index/width/terms.",
-   note="Reference tree and reference inclusion verifier in checks/merkle_ref_test.go. Consistency-proof soundness is checked for altered terms and altered roots only (no independent verifier of immudb's consistency-proof format).",
-   technique="deterministic simulation: seeded op/crash sequences vs reference Merkle tree + tampered-proof injection"),
+   text="Seeded sequences of append (payloads incl. empty and repeated) / ResetSize / Sync / close-reopen on the real ahtree under an option swarm (sync threshold, 1-slot caches, tiny files); after the steps the whole public surface for sizes up to 40 is compared with a reference Merkle construction written from the definition: Root, RootAt(k), DataAt, InclusionProof and ConsistencyProof for index pairs (all pairs on full verification), verified with the real verifiers and with an independent reference verifier; altered proofs (dropped/extra/flipped/swapped/duplicated terms) and altered claims (shifted i, j, swapped roots, wrong leaf) must be rejected unless the reference verifier accepts the altered claim. htree (per-transaction tree): widths 1..33, all leaves, same reference, altered leaf index/width/terms.",
+   note="No crash images (the property lists append/reset-size/sync/reopen/restart); the hash tree's crash recovery is exercised as part of the store in C03. Reference tree and reference inclusion verifier in checks/merkle_ref_test.go. Consistency-proof soundness is checked for altered terms and altered roots only.",
+   technique="deterministic simulation: seeded op sequences vs reference Merkle tree + tampered-proof injection"),
  "C10": dict(
    level="exploration", design="DESIGN.md §7 C10",
-   text="Seeded operation sequences on the real tbtree under an option swarm (minimal node sizes forcing deep trees and splits, 1-slot cache, flush/sync/buffer thresholds, snapshot limits, compaction threshold, tiny files, snapshot renewal period on the simulated clock): bulk inserts (auto and explicit timestamps), IncreaseTs, flushes with cleanup, Sync, Compact, up to 3 open snapshots read at arbitrary later points, readers with random seek/end/prefix/direction/offset specs, Get, GetBetween, History (both directions, offset/limit), GetWithPrefix, close/reopen and crash/reopen. Model: key -> versions, one immutable copy per logical time; a snapshot must keep answering from the state of the logical time it reports (>= the time it was asked to include).",
-   note="ReaderSpec.Offset only without history; ReadBetween/IncludeHistory readers are not generated. After the first crash recovery has been validated, anomalies are attributed to the recorded stale-log-tail finding (see known_findings.json).",
-   technique="deterministic simulation: seeded op/crash sequences vs multi-version map model with per-timestamp states"),
+   text="Seeded operation sequences on the real tbtree under an option swarm (minimal node sizes forcing deep trees and splits, 1-slot cache, flush/sync/buffer thresholds, snapshot limits, compaction threshold, tiny files, snapshot renewal period on the simulated clock): bulk inserts (auto and explicit timestamps), IncreaseTs, flushes with cleanup, Sync, Compact, up to 3 open snapshots read at arbitrary later points, readers with random seek/end/prefix/direction/offset specs, Get, GetBetween, History (both directions, offset/limit), GetWithPrefix, close/reopen. Model: key -> versions, one immutable copy per logical time; a snapshot must keep answering from the state of the logical time it reports (>= the time it was asked to include).",
+   note="No crash images (the property speaks of flush, cleanup, compaction and restart; what an index recovers after a crash is decided at store level in C03/C04, where it is rebuilt from the tx log). ReaderSpec.Offset only without history; ReadBetween/IncludeHistory readers are not generated.",
+   technique="deterministic simulation: seeded op sequences with concurrent snapshot readers vs multi-version map model with per-timestamp states"),
  "C09": dict(
    level="fault_enumeration", design="DESIGN.md §7 C09",
    text="A small store (2-10 transactions; plain/embedded values, 1-3 value logs, tiny files so that records span chunks, tx metadata, deletes/expirations) is built inside the simulation and closed; then 1-3 bit flips at seeded offsets inside the data region of the tx-log and value-log files are applied to a copy (at rest), or bits are flipped in the bytes returned by file reads while the store is open (live, through the read hook), with and without forcing an index rebuild. Every integrity-checked read is then run under a panic catcher: Open, ReadTx, ReadValue, ReadTxHeader, ExportTx (compared logically with the pristine export), TxReader scan, DualProof, Get+Resolve after indexing. Oracle: error or exactly the committed content; never other data, never a panic, bounded (simulated) time. Sampling of the flip space (6 cases per store in quick, 20 in thorough), not exhaustive.",
-   note="Compressed value logs are excluded (a corrupted compressed length makes the reader allocate up to 4 GiB; observed as a hang while building C03, recorded in DESIGN.md). Header/metadata bytes of the files are not flipped (they do not hold committed transactions).",
+   note="Compressed value logs are excluded (a corrupted compressed length makes the reader allocate up to 4 GiB). Header/metadata bytes of the files are not flipped. The read that skips integrity checks (placed in front of the checked reads in some runs, value cache on) is kept rare for the same allocation reason.",
    technique="deterministic simulation: seeded bit-flip fault enumeration (at rest and at read time) vs pristine ledger"),
  "C14": dict(
    level="exploration", design="DESIGN.md §7 C14",
@@ -60,22 +60,22 @@ CHECKS = {
  "C07": dict(
    level="exploration", design="DESIGN.md §7 C07 (layer A)",
    text="Store-level replication in one bubble: a primary store builds a history with concurrent committers (tx metadata, empty values, header v0/v1, optionally truncated so that old transactions are exported by digest); the messages are ExportTx(i); 1-3 replica worker tasks deliver them to ReplicateTx out of order inside the concurrency window, duplicated, retried after (simulated) time-outs, with and without integrity-check skipping, interleaved with altered copies (bit flips, truncation, trailer and length-field edits, appended bytes), replica close/reopen and DiscardPrecommittedTxsSince. Oracle: no panic; an altered message is rejected or leaves exactly the primary's transaction; duplicates report 'already committed'; once faults stop the replica reaches the primary's frontier (liveness bound); every replicated transaction has the primary's id, header, entries, values (digests when truncated) and Alh; the replica's index answers like the model of the primary's history and its dual proofs verify against the primary's states.",
-   note="Layer B of the design (pkg/database + the real TxReplicator over a simulated network, synchronous replication acks and their durability) is NOT built: the 'primary reports committed only after the required replicas durably hold it' clause is not decided by this check.",
+   note="Two layers. A (store level): exported transactions delivered lost/duplicated/reordered/altered by worker tasks. B (30% of the runs, pkg/database level): synchronous replication with 1-2 acks and 1-2 replicas, the replicator's protocol spoken by harness tasks with the real API on both sides (CurrentState, ExportTxByID with replica state, ReplicateTx, AllowCommitUpto, DiscardPrecommittedTxsSince), lossy/duplicating/altering network, replica restarts; invariants: committed on the primary => durably precommitted on enough replicas, replica never ahead of nor different from the primary, convergence. NOT driven: pkg/replication.TxReplicator itself (goroutines, gRPC streams, retry timers) and the server's stream handlers.",
    technique="deterministic simulation: seeded delivery schedules + altered-message injection vs primary ledger"),
  "C01": dict(
    level="exploration", design="DESIGN.md §7 C01",
    text="An honest store builds histories under the simulator (concurrent committers, tx metadata, header v0/v1, deletes, restarts between requests). For sampled pairs trusted tx i <= proven tx j the client-side verification is run on the server's response: DualProof and DualProofV2 must verify against the states acknowledged to the client (completeness) and the per-entry inclusion proofs must verify against the entries hash. A tampering adversary on the response path then alters one aspect per trial — claimed states and ids, every header field of source/target, inclusion/consistency/last-inclusion terms (dropped, extra, flipped, swapped, duplicated), TargetBlTxAlh, linear and linear-advance proofs, swapped source/target, entry key/value/position — and a forked server (shares a prefix of the history, then diverges) answers instead of the honest one. Oracle: acceptance implies truth — a response that verifies must claim exactly the history's states with the new one extending the trusted one; an altered entry must never verify.",
-   note="Store-level verifiers (the same functions pkg/client calls); the pkg/database Verifiable* assembly, pkg/client's verifiedGet flow (references, returned key), SQL/document proofs, state signatures and histories whose binary linking lags by more than one tx are NOT covered by this check.",
+   note="Two layers. A (store level): DualProof/DualProofV2/linear/inclusion proofs of histories built by concurrent committers, verified against every trusted state, tampered single fields and forked servers. B (10% of the runs): the real pkg/client against a real server over in-bubble gRPC with a tampering interceptor (alters one field of a Verifiable*/ProofDocument response or replays an older one): VerifiedSet/Get/GetAt/TxByID/SetReference, client restarts, a lagging second client, document proofs via pkg/verification.VerifyDocument. Not covered: histories whose binary linking lags (the store never produces them: seeded change c01c-1 is missed), state signatures, SQL row proofs (VerifyRow), streams; freshness is not claimed (a replayed authentic older version verifies by design).",
    technique="deterministic simulation: seeded histories + tampered/forked response injection vs ledger (acceptance implies truth)"),
  "C11": dict(
    level="exploration", design="DESIGN.md §7 C11",
    text="sql.Engine over the simulated store; one table with indexes on (a), (b), (a,c) created before or after the data; a DML session (upsert, update of indexed columns, delete), index flush/compaction and restart run as tasks while the secondary indexers lag by arbitrary amounts (yield between reading a bulk and inserting it, bulk sizes 1-8); a query task issues metamorphic groups at arbitrary points, also inside an open transaction holding uncommitted changes: the same WHERE clause through the default plan and through every index (USE INDEX ON), ternary-logic partitioning (P, NOT P, P IS NULL partition the table), ORDER BY ASC/DESC (same multiset, sorted with NULL first).",
-   note="One table, no joins / GROUP BY / subqueries / LIMIT-OFFSET / historical queries yet; predicates from a fixed family of 12 shapes with seeded constants.",
+   note="Two tables; joins only INNER with one extra conjunct, compared with a nested-loop join computed by the harness; ORDER BY on one column (leading or non-leading index column); no GROUP BY / subqueries / LIMIT-OFFSET / historical queries yet; predicates from a fixed family of 14 shapes with seeded constants.",
    technique="deterministic simulation: metamorphic query groups under seeded indexer lag, maintenance and restarts"),
  "C12": dict(
    level="exploration", design="DESIGN.md §7 C12",
    text="2-4 concurrent SQL sessions (autocommit statements and multi-statement transactions) issue INSERT / UPSERT / INSERT ON CONFLICT DO NOTHING / UPDATE (also of the unique column) / DELETE with values that violate PRIMARY KEY, UNIQUE, NOT NULL, VARCHAR length and CHECK constraints at a raised rate, a DDL task may create the unique index while they run, an auto-increment table is filled concurrently. A checker task during the run, and the harness after it and after a restart, scans the committed tables: no duplicate primary key, no duplicate value in the unique index (single-column on t(a); composite on u(p, q), exercised by INSERT/UPSERT/UPDATE of either column/DELETE), no NULL in NOT NULL columns, lengths and CHECK satisfied, scans through every index return the same rows as the primary-key scan, auto-generated keys never handed out twice.",
-   note="Column add/drop/rename are not generated.",
+   note="Column add/drop/rename are not generated. DDL inside a transaction only as ALTER TABLE DROP CONSTRAINT followed by rollback.",
    technique="deterministic simulation: seeded concurrent sessions, invariant scan of committed tables"),
  "C13": dict(
    level="exploration", design="DESIGN.md §7 C13",
@@ -90,7 +90,7 @@ CHECKS = {
  "C19": dict(
    level="exploration", design="DESIGN.md §7 C19",
    text="document.Engine over the simulated store: a writer task inserts, replaces and deletes documents (nested JSON, lists, unicode, missing numeric field) in twin collections — one with indexes on the queried fields and a unique index, one without — while the indexers lag by arbitrary amounts and index flush/compaction and restarts are interleaved; duplicates for the unique field are attempted. Oracle after the workload and after restart, against an in-memory list of the documents: id lookup and searches (comparisons, AND / OR groups, nested path) return exactly the stored documents that satisfy the filter with all fields unchanged, counts agree, the twins answer identically (index independence), the unique index admits no duplicate, the audit trail lists every revision in order.",
-   note="ProofDocument/VerifyDocument (pkg/database + pkg/verification), ordering/paging, AddField/RemoveField and index creation/removal over time are not driven yet.",
+   note="ProofDocument/VerifyDocument are driven in C01 layer B, not here. Ordering/paging, AddField/RemoveField and index creation/removal over time are not driven yet.",
    technique="deterministic simulation: seeded document histories under indexer lag/restarts vs in-memory JSON list, twin collections"),
 }
 
